@@ -697,4 +697,31 @@ example : emittedGenerics (collectGenerics
     [(0, ⟨none, none, true, 7, 1, false, 1⟩), (1, ⟨none, none, true, 7, 1, false, 2⟩), (2, ⟨none, none, true, 8, 1, false, 0⟩)] [])
     = [(7, [0, 1])] := by decide
 
+/-! ## non-vacuity: concrete instances of the hypotheses used above -/
+
+example : runArg Kind.charOut.fspec (Kind.charOut.cspec false) true (.buf [113, 113, 113, 113])
+    (.arg fun _ => .buf ([97, 98] ++ NUL :: [7])) = .ok ⟨some (.buf [113, 113, 113, 113]), .buf [97, 98, 32, 32], 0⟩ := by
+  decide
+example : runArg Kind.charInout.fspec (Kind.charInout.cspec true) true (.buf [97, 32, 32])
+    (.arg fun _ => .buf ([65] ++ NUL :: [0, 0])) = .ok ⟨some (.buf [97, 0, 256, 256]), .buf [65, 32, 32], 0⟩ := by
+  decide
+example : runArg Kind.charResult.fspec (Kind.charResult.cspec true) true (.buf [256, 256, 256])
+    (.result (.buf ([104, 105] ++ NUL :: []))) = .ok ⟨none, .buf [104, 105, 32], 0⟩ := by decide
+example : runArg Kind.stringResult.fspec (Kind.stringResult.cspec false) true (.buf [256, 256])
+    (.result (.str [120, 121, 122])) = .ok ⟨none, .buf [120, 121], 0⟩ := by decide
+example : runArg Kind.charScalarResult.fspec (Kind.charScalarResult.cspec false) true (.buf [256, 256])
+    (.result (.int 65)) = .ok ⟨none, .buf [65, 32], 0⟩ := by decide
+example : Kind.charIn ∈ allKinds ∧ [1, 12, 31, 40, 51] ∈ Kind.charIn.cpaths true ∧ [2, 12, 31, 40, 51] ∈ Kind.charIn.fpaths := by
+  decide
+/-- a method `int meth(int a, int n +implied(..), int *h +hidden+intent(out))`: API `(obj, a)`, C gets all four -/
+example :
+    let p (n : Nat) (ptr intent : Nat) (hid : Bool) (imp : Nat) : Param :=
+      ⟨n, ⟨10, ptr, intent, 0, 0, false, 0, 1⟩, ⟨10, ptr, intent, 0, 0, false, 0, 1⟩, false, hid, false, false, false, imp, false⟩
+    let fn : Fn := ⟨1, true, true, 0, false, 10, 30, 0, 0, [p 1 30 40 false 0, p 2 30 40 false 1, p 3 31 41 true 0]⟩
+    (assembleF (rowsOf true) fn).fargs = [0, 1] ∧
+    (assembleF (rowsOf true) fn).actuals = [.this, .var 1, .implied 2, .var 3] := by
+  decide +kernel
+example : (lookup (rowsOf true) (fPathRes ⟨0, true, true, 0, false, 10, 30, 0, 0, []⟩)).clause 9 = [] := by decide +kernel
+example : ([1, 2, 3] : List Nat).length = 1 + 2 := rfl
+
 end Shroud.WrapF
